@@ -37,6 +37,7 @@ ARCHS = {
     "convavg": lambda A, L: [("conv", A, 2, 2, 1, 0, 1), ("act", "SiLU"), ("avgpool", 2), ("flatten",), ("linear", 2 * ((L - 1) // 2), 2)],
     "convmax": lambda A, L: [("conv", A, 1, 2, 1, 0, 1), ("act", "ReLU"), ("maxpool", 2), ("flatten",), ("linear", (L - 1) // 2, 2)],
     "affine": lambda A, L: [("conv", A, 2, 2, 1, 0, 1), ("flatten",), ("linear", 2 * (L - 1), 2)],
+    "convmaxov": lambda A, L: [("conv", A, 1, 2, 1, 0, 1), ("act", "ReLU"), ("maxpool", 2, 1), ("flatten",), ("linear", (L - 1) - 1, 2)],      # overlapping windows
     "convmaxpad": lambda A, L: [("conv", A, 1, 2, 1, 0, 1), ("act", "ReLU"), ("maxpool", 3, 3, 1), ("flatten",), ("linear", (L - 1 + 2 - 3) // 3 + 1, 2)],
 }
 for _a in nn.ACT_NAMES:
